@@ -120,6 +120,7 @@ extern int                 bufr_check_sequence             ( BUFR_Sequence *desc
 extern BufrDescriptorArray bufr_sequence_to_array          ( BUFR_Sequence *descriptors, int dovalue );
 extern BufrDPBM           *bufr_index_dpbm                 ( BufrDDOp *ddo, BUFR_Sequence *bcl );
 extern int                 bufr_estimate_seq_length        ( BUFR_Sequence *seq, BUFR_Tables *tbls );
+extern int                 bufr_minimum_seq_length         ( BUFR_Sequence *seq );
 
 #ifdef __cplusplus
 }
